@@ -1,6 +1,8 @@
 (* Property C07 -- adjacent missing chunks are fetched with a single range request.
    Model: Model/HttpReader.v (ChunkReader + HttpRangeRequest driven by a server script). *)
 From Bita Require Import Model.Base Model.HttpReader Proofs.Readers.
+From Bita Require Import Model.Chunker Model.Proto Model.Archive Model.Compress Model.CloneArchive Model.CloneBytes.
+From Bita Require Import Proofs.ProtoRoundTrip Proofs.RoundTrip Proofs.CloneBytesCorrect Proofs.CloneBytesMore Proofs.CloneHttp.
 
 (* [runs] is a partition of the chunk list into maximal runs of adjacent chunks, in list order *)
 Theorem C07_runs_spec : forall chunks,
@@ -19,6 +21,44 @@ Theorem C07_requests_are_maximal_runs : forall f retries chunks,
   = (map (fun c => IOk (chunk_bytes f c)) chunks, map run_request (runs chunks)).
 Proof. exact requests_are_maximal_runs. Qed.
 
+(* End to end (Proofs/CloneHttp.v): WHICH chunks a clone asks the HTTP reader for, composed with HOW the reader
+   groups them. For every archive of the model writer, every old output (scanned when used in place) and all
+   seeds, the Range requests of the archive phase are exactly one per maximal run of adjacent stored ranges of
+   the descriptors whose checksum is the truncated hash of no chunk found in the scanned files, in archive order;
+   their number is the number of maximal blocks of consecutive missing descriptors in the table; and the items
+   delivered are those descriptors' stored bytes in order. [stored_nonempty]: no chunk is stored as zero bytes
+   (a zero-sized range is completed by the reader without any request: zero_size_counterexample). *)
+Theorem C07_clone_requests_end_to_end :
+  forall (H comp : list N -> list N) (decomp : N -> list N -> option (list N)),
+    (forall x, lenN (H x) = 64) -> (forall x, Forall (fun b => b < 256) (H x)) ->
+    forall src o bytes prior inplace seeds retries,
+      opts_ok o -> bytes_ok src -> lenN src < 18446744073709551616 -> lenN bytes < 18446744073709551616 ->
+      codec_ok comp decomp o -> few_chunks o src ->
+      no_collision H o src prior inplace seeds -> stored_nonempty comp o src ->
+      compress_model H comp src o = Ok bytes ->
+      exists a, try_init H (file_read_at bytes) = Ok a
+        /\ let missing := filter (missing_by_checksum H o a prior inplace seeds) (a_descs a) in
+           clone_http_requests H a bytes retries prior inplace seeds = map run_request (runs (map (desc_range a) missing))
+           /\ lenN (clone_http_requests H a bytes retries prior inplace seeds)
+              = blocks false (map (missing_by_checksum H o a prior inplace seeds) (a_descs a))
+           /\ clone_http_items H a bytes retries prior inplace seeds = map (fun d => IOk (file_payload bytes d)) missing.
+Proof. exact compress_clone_http. Qed.
+
+(* a clone that finds nothing to reuse fetches all chunk data of a non-empty source with exactly ONE request, from
+   the chunk data offset to the end of the archive *)
+Theorem C07_nothing_found_one_request :
+  forall (H comp : list N -> list N) (decomp : N -> list N -> option (list N)),
+    (forall x, lenN (H x) = 64) -> (forall x, Forall (fun b => b < 256) (H x)) ->
+    forall src o bytes prior retries,
+      opts_ok o -> bytes_ok src -> lenN src < 18446744073709551616 -> lenN bytes < 18446744073709551616 ->
+      codec_ok comp decomp o -> few_chunks o src ->
+      no_collision H o src prior false [] -> stored_nonempty comp o src ->
+      compress_model H comp src o = Ok bytes -> src <> [] ->
+      exists a, try_init H (file_read_at bytes) = Ok a
+        /\ clone_http_requests H a bytes retries prior false [] = [(a_data_offset a, lenN bytes - a_data_offset a)]
+        /\ clone_http_items H a bytes retries prior false [] = map (fun d => IOk (file_payload bytes d)) (a_descs a).
+Proof. exact compress_clone_http_nothing_found. Qed.
+
 Example C07_example :
   let f := map N.of_nat (seq 0 60) in
   let chunks := [ {| r_off := 10; r_size := 7 |}; {| r_off := 17; r_size := 5 |}; {| r_off := 40; r_size := 3 |};
@@ -28,3 +68,5 @@ Proof. vm_compute. reflexivity. Qed.
 
 Print Assumptions C07_runs_spec.
 Print Assumptions C07_requests_are_maximal_runs.
+Print Assumptions C07_clone_requests_end_to_end.
+Print Assumptions C07_nothing_found_one_request.
